@@ -53,6 +53,44 @@ class TrackDict(dict):
         return dict.__getitem__(self, k)
 
 
+class LazyFields(dict):
+    """fields of a struct snapshot taken through a pointer, loaded on first use: a spec function then depends
+    only on the heaps of the fields it actually reads"""
+
+    def __init__(self, names, loader):
+        dict.__init__(self)
+        self._names = list(names)
+        self._loader = loader
+
+    def __contains__(self, k):
+        return k in self._names
+
+    def __getitem__(self, k):
+        if not dict.__contains__(self, k):
+            if k not in self._names:
+                raise KeyError(k)
+            dict.__setitem__(self, k, self._loader(k))
+        return dict.__getitem__(self, k)
+
+    def get(self, k, d=None):
+        return self[k] if k in self._names else d
+
+    def keys(self):
+        return list(self._names)
+
+    def __iter__(self):
+        return iter(self._names)
+
+    def __len__(self):
+        return len(self._names)
+
+    def items(self):
+        return [(k, self[k]) for k in self._names]
+
+    def values(self):
+        return [self[k] for k in self._names]
+
+
 class ProbeSeq(SeqV):
     """sequence formal of a probe: remembers whether its length was read"""
 
@@ -140,6 +178,9 @@ class Verifier(Exec):
         for f in self.prog.funcs:
             if f.endswith('.' + name) and '(' not in f:
                 return f
+        for f in self.prog.funcs:
+            if f.endswith(').' + name):
+                return f
         return None
 
     def lookup_global(self, st, name):
@@ -157,6 +198,17 @@ class Verifier(Exec):
                 return self.load(st, p.addr)
         return None
 
+    def lookup_funcname(self, name):
+        pk = self.fn['pkg']
+        cands = [pk + '.' + name]
+        if '.' in name:
+            p, n = name.split('.', 1)
+            cands += [g for g in self.prog.funcs if g.endswith('/' + p + '.' + n)]
+        for c in cands:
+            if c in self.prog.funcs:
+                return c
+        return None
+
     def map_heaps(self, st, m):
         """(key, type entry, {leaf: heap of values}, membership heap); values may be scalars or strings"""
         tid = m.tid
@@ -168,6 +220,9 @@ class Verifier(Exec):
             leaves = dict((s, self.heap_get(st, 'MAPV:%s.%s' % (key, s), arr(ARR_II))) for s in ('arr', 'off', 'len'))
         elif self.is_scalar(u['elem']):
             leaves = {'': self.heap_get(st, 'MAPV:' + key, arr(arr(self.sort_of(u['elem']))))}
+            self.valid_scalar_heap(leaves[''], u['elem'], True)
+        elif self.kind(u['elem']) == 'struct' and not self.struct_fields(u['elem']):
+            leaves = {}       # set: map[K]struct{}
         else:
             raise Unsupported('map value type %s' % u['elem'])
         hh = self.heap_get(st, 'MAPH:' + key, arr(ARR_IB))
@@ -192,6 +247,8 @@ class Verifier(Exec):
         if self.is_string(u['elem']):
             g = lambda s: ite(present, select(select(leaves[s], m.term), k), ZERO)
             return StrV(g('arr'), g('off'), g('len'))
+        if not leaves:
+            return StructV(u['elem'], {})
         zero = FALSE if self.is_bool(u['elem']) else ZERO
         v = ite(present, select(select(leaves[''], m.term), k), zero)
         return self.wrap_scalar(v, u['elem'], st)
@@ -309,10 +366,26 @@ class Verifier(Exec):
         if isinstance(v, PtrV):
             if self.kind(v.elem) == 'struct':
                 a = v.addr if v.addr is not None else ('obj', v.elem, v.term)
-                return self.snapshot(st, self.load(st, a))
+                if self.addr_root(a)[0] != 'cell':
+                    big = [f['name'] for f in self.struct_fields(v.elem) if self.kind(f['type']) == 'array' and not self.small_arr(f['type'])
+                           and (self.U(f['type'])['len'] > 16 or not self.is_scalar(self.U(f['type'])['elem']))]
+                    p = self.addr_term(st, a)
+                    st2 = st.copy()
+                    ftypes = dict((f['name'], f['type']) for f in self.struct_fields(v.elem))
+
+                    def loader(fname, st2=st2, p=p, a=a, big=big, ftypes=ftypes, stid=v.elem):
+                        if fname in big:
+                            # large embedded arrays stay address-based (like slices of aggregates)
+                            return self.ptr_term(st2, PtrV(None, ftypes[fname], ('fld', a, fname, ftypes[fname], stid)))
+                        return self.snapshot(st2, self.field_load(st2, stid, p, fname, ftypes[fname]), None, True)
+                    return SnapV(v.elem, LazyFields([f['name'] for f in self.struct_fields(v.elem)], loader), self.ptr_term(st, v))
+                r_ = self.snapshot(st, self.load(st, a))
+                if isinstance(r_, SnapV) and self.addr_root(a)[0] != 'cell':
+                    r_.addr = self.ptr_term(st, v)
+                return r_
             return self.scalar_term(v)
         if isinstance(v, Opaque):
-            return v.term
+            return v
         if isinstance(v, StructV):
             return SnapV(v.tid, dict((k, self.snapshot(st, x, None, True)) for k, x in v.f.items()))
         if isinstance(v, ArrV):
@@ -329,9 +402,17 @@ class Verifier(Exec):
             for f in self.struct_fields(v.tid):
                 if f['name'] in fields:
                     self.flatten(v.f[f['name']], out)
+            if '&' in fields:
+                if v.addr is None:
+                    raise Unsupported('spec function takes the address of a field of a value that has no address')
+                out.append(v.addr.term)
             return out
         if isinstance(v, T):
             out.append(v)
+        elif isinstance(v, Opaque):
+            out.append(v.term)
+        elif isinstance(v, PtrV) and v.term is not None:
+            out.append(v.term)
         elif isinstance(v, SeqV):
             out.extend([v.a, v.off, v.len])
             if v.alt is not None:
@@ -357,7 +438,11 @@ class Verifier(Exec):
             return const(prefix, BOOL)
         if self.is_scalar(tid):
             if k == 'pointer' and self.kind(self.U(tid)['elem']) == 'struct':
-                return self.formal(prefix, self.U(tid)['elem'])
+                r_ = self.formal(prefix, self.U(tid)['elem'])
+                r_.addr = PtrV(const(prefix + '.p', INT), self.U(tid)['elem'])
+                return r_
+            if k in ('map', 'chan', 'func', 'interface'):
+                return Opaque(const(prefix, INT), tid)
             return const(prefix, INT)
         if k == 'slice':
             e = self.U(tid)['elem']
@@ -370,6 +455,8 @@ class Verifier(Exec):
             return SnapV(tid, dict((f['name'], self.formal(prefix + '.' + f['name'], f['type'], True)) for f in self.struct_fields(tid)))
         if k == 'array':
             u = self.U(tid)
+            if in_struct and not self.small_arr(tid) and (u['len'] > 16 or not self.is_scalar(u['elem'])):
+                return PtrV(const(prefix + '.p', INT), tid)          # large embedded array: address-based
             return ArrV(tid, [self.formal('%s.%d' % (prefix, i), u['elem']) for i in range(u['len'])], u['elem'])
         raise Unsupported('formal of kind %s' % k)
 
@@ -450,7 +537,7 @@ class Verifier(Exec):
         if fname not in self.ctx.declared:
             self.ctx.declare_fun(fname, [t.sort for t in flat], rsort)
         r = app(fname, flat, rsort)
-        if sf.body is not None and self.unfolding == 0 and r not in self.unfolded and not self.has_bound(flat):
+        if sf.body is not None and (self.unfolding == 0 or (sf.decreases is None and self.unfolding <= 3)) and r not in self.unfolded and not self.has_bound(flat):
             self.unfolded.add(r)
             self.unfolding += 1
             try:
@@ -514,6 +601,36 @@ class Verifier(Exec):
                 if x.op == 'const' and ('?' in x.val or x.val.startswith('$') or x.val.endswith('!') and len(x.val) <= 3):
                     return True
         return False
+
+    def reveal_specfun(self, name, st):
+        """`reveal f` in a function contract: the definition of the opaque (non-recursive) spec function f is
+        available as a quantified axiom, triggered by applications of f, throughout that function"""
+        sf = self.specs.specfuncs.get(name)
+        if sf is None or sf.body is None or sf.decreases is not None:
+            raise SpecError('reveal %s: not a non-recursive spec function' % name)
+        heaps_ = self.specfun_heaps(sf, st)
+        fields_ = self.sf_fields.get(sf.name) or [None] * len(sf.params)
+        formals = [self.formal('%s$%s' % (sf.name, p[0]), self.parse_type(p[1])) for p in sf.params]
+        flat = []
+        for f, fl in zip(formals, fields_):
+            self.flatten(f, flat, fl)
+        env = dict((p[0], f) for p, f in zip(sf.params, formals))
+        self.unfolding += 1
+        try:
+            body = SpecEval(self, st, env, None, 'spec func ' + sf.name).ev(sf.expr)
+        finally:
+            self.unfolding -= 1
+        if not isinstance(body, T):
+            raise SpecError('spec func %s must return a scalar' % sf.name)
+        rsort = BOOL if sf.ret == 'bool' else INT
+        fname = 'sf:' + sf.name
+        # heaps the body reads (package variables, ...) are those of the function's entry state: the axiom applies
+        # to applications over the same, unmodified heaps
+        hargs = [self.heap_get(st, hn, None) for hn in heaps_]
+        lhs = app(fname, flat + hargs, rsort)
+        if fname not in self.ctx.declared:
+            self.ctx.declare_fun(fname, [t.sort for t in flat + hargs], rsort)
+        self.ctx.assume(forall(flat, eq(lhs, body), [lhs]))
 
     def flush_specfun_axioms(self, st):
         while self.pending_specfun:
@@ -969,6 +1086,8 @@ class Verifier(Exec):
             base = x.addr if x.addr is not None else ('obj', x.elem, x.term)
             if self.addr_root(base)[0] == 'cell':
                 raise Unsupported('slicing a local array')
+            if self.small_arr(x.elem):
+                raise Unsupported('slicing a small fixed array (stored per index)')
             a = self.addr_term(st, base)
             x = SliceV(a, ZERO, I(at['len']), I(at['len']), at['elem'])
         if not isinstance(x, SliceV):
@@ -1046,6 +1165,9 @@ class Verifier(Exec):
                             self.zero_fact(st, 'HF:%s.%s.%s' % (self.tname(tid), f['name'], s_), INT, addr, ZERO, k)
                     elif self.kind(ft) == 'struct':
                         leafs(ft, fv, self.subaddr(tid, f['name'], addr))
+                    elif self.small_arr(ft):
+                        for j_ in range(self.U(ft)['len']):
+                            self.zero_fact(st, 'HA:%s.%d' % (self.tname(ft), j_), self.sort_of(self.U(ft)['elem']), self.subaddr(tid, f['name'], addr), FALSE if self.is_bool(self.U(ft)['elem']) else ZERO, k)
                     else:
                         self.ctx.notes.append('zero-initialisation of %s.%s not modelled' % (self.tname(tid), f['name']))
             elif kd == 'slice':
@@ -1055,6 +1177,9 @@ class Verifier(Exec):
             elif self.is_string(tid):
                 for s_ in ('arr', 'off', 'len'):
                     self.zero_fact(st, 'HF:string.' + s_, INT, addr, ZERO, k)
+            elif self.small_arr(tid):
+                for j_ in range(self.U(tid)['len']):
+                    self.zero_fact(st, 'HA:%s.%d' % (self.tname(tid), j_), self.sort_of(self.U(tid)['elem']), addr, FALSE if self.is_bool(self.U(tid)['elem']) else ZERO, k)
             else:
                 self.ctx.notes.append('zero-initialisation of elements of type %s not modelled' % tid)
         leafs(e, z, p)
@@ -1102,7 +1227,7 @@ class Verifier(Exec):
             return self.contract_call(st, ins, callee, spec, args, fv.bindings)
         return self.unknown_call(st, ins, 'dynamic call')
 
-    def effect_check(self, st, kind, fv, what):
+    def effect_check(self, st, kind, fv, what, args=None):
         """declared effects: //@ effect call|send <field> requires E"""
         fname = fv.info[1] if isinstance(fv, Opaque) and isinstance(fv.info, tuple) and fv.info[0] == 'field' else None
         decl = None
@@ -1118,16 +1243,27 @@ class Verifier(Exec):
         if ms:
             etxt, sets = ms.group(1), int(ms.group(2))
         self.effect_modifies = None
+        self.effect_assumes = None
+        self.effect_pure = False
+        ma_ = re.match(r'^(.*?)\s+assumes\s+(.*)$', etxt)
+        if ma_:
+            etxt, self.effect_assumes = ma_.group(1), ma_.group(2)
+        mp_ = re.match(r'^(.*?)\s+pure(\([\d, ]*\))?\s*$', etxt)
+        if mp_:
+            etxt, self.effect_pure = mp_.group(1), True
+            self.effect_pure_args = [int(x) for x in mp_.group(2)[1:-1].replace(' ', '').split(',') if x] if mp_.group(2) else None
         mm2 = re.match(r'^(.*?)\s+modifies\s+arg(\d+)\s*$', etxt)
         if mm2:
             etxt, self.effect_modifies = mm2.group(1), int(mm2.group(2))
-        env = self.spec_env(self.scope_at_line(self.cur_line))
+        env = dict(self.spec_env(self.scope_at_line(self.cur_line)))
+        for i_, a_ in enumerate(args or []):
+            env['arg%d' % i_] = a_
         t = SpecEval(self, st, env, self.old, cl.src).boolean(parse_expr(etxt))
         self.oblige(st, 'effect', '%s:%s' % (kind, fname), t, {'clause': '%s %s requires %s' % (kind, fname, etxt)}, cl.props)
         return sets
 
     def effect_call(self, st, ins, fv, args):
-        sets = self.effect_check(st, 'call', fv, 'function value')
+        sets = self.effect_check(st, 'call', fv, 'function value', args)
         if sets is not None and self.track_own and isinstance(args[sets], SliceV):
             # the consumer keeps the slice: its cells become owned
             a_ = args[sets]
@@ -1151,8 +1287,51 @@ class Verifier(Exec):
         if rt and not (self.kind(rt) == 'tuple' and not self.U(rt)['elems']):
             res = self.fresh_value('r:effect', rt, True, None)
             self.bound_new_addrs(res, rt, st)
+            if getattr(self, 'effect_pure', False):
+                # the function value is deterministic: scalar results are a function of (function value, argument values)
+                leaves = []
+                self.scalar_leaves(res, leaves)
+                flat = self.fv_flat(st, fv, args, getattr(self, 'effect_pure_args', None))
+                for i_, lf in enumerate(leaves):
+                    nm_ = 'fv.pure.%d' % i_
+                    self.ctx.declare_fun(nm_ + '/' + str(len(flat)), [t_.sort for t_ in flat], lf.sort)
+                    self.ctx.assume(implies(st.pc, eq(lf, app(nm_ + '/' + str(len(flat)), flat, lf.sort))))
+                self.trusted.add('function values called as declared pure effects are deterministic functions of their arguments')
+            if getattr(self, 'effect_assumes', None):
+                env = dict(self.spec_env(self.scope_at_line(self.cur_line)))
+                env['result'] = res
+                if isinstance(res, TupleV):
+                    for i_, e_ in enumerate(res.elems):
+                        env['r%d' % i_] = e_
+                for i_, a_ in enumerate(args):
+                    env['arg%d' % i_] = a_
+                t_ = SpecEval(self, st, env, self.old, 'effect assumes').boolean(parse_expr(self.effect_assumes))
+                self.ctx.assume(implies(st.pc, t_))
+                self.trusted.add('effect assumption on a function value: ' + self.effect_assumes)
             return res
         return None
+
+    def fv_flat(self, st, fv, args, which=None):
+        """argument list of the uninterpreted functions that stand for a pure function value's results"""
+        flat = [self.scalar_term(fv)]
+        for i_, a_ in enumerate(args):
+            if which is not None and i_ not in which:
+                continue
+            self.flatten(self.snapshot(st, a_), flat)
+        return flat
+
+    def scalar_leaves(self, v, out):
+        if isinstance(v, T):
+            out.append(v)
+        elif isinstance(v, StructV):
+            for f in self.struct_fields(v.tid):
+                self.scalar_leaves(v.f[f['name']], out)
+        elif isinstance(v, TupleV):
+            for e in v.elems:
+                self.scalar_leaves(e, out)
+        elif isinstance(v, ArrV):
+            for e in v.elems:
+                self.scalar_leaves(e, out)
 
     def object_regions(self, tid, p):
         """regions covering a whole object of type tid at address p, including nested structs and arrays of scalars"""
@@ -1167,7 +1346,9 @@ class Verifier(Exec):
                 elif fk == 'array':
                     u = self.U(f['type'])
                     sa = self.subaddr(tid, f['name'], p)
-                    if self.is_scalar(u['elem']):
+                    if self.small_arr(f['type']):
+                        regs.append(('obj', self.tname(f['type']), sa, None))
+                    elif self.is_scalar(u['elem']):
                         regs.append(('slice', self.elem_key(u['elem']), sa, ZERO, I(u['len'])))
                     else:
                         regs.append(('objs', u['elem'], sa, ZERO, I(u['len'])))
@@ -1269,12 +1450,26 @@ class Verifier(Exec):
         self.ctx.declare_fun(name, [t.sort for t in flat], sort)
         return app(name, flat, sort)
 
+    def pure_slice(self, st, callee, args, idx, elem):
+        flat = []
+        for a in args:
+            self.flatten(self.snapshot(st, a), flat)
+        parts = []
+        for s_ in ('arr', 'off', 'len'):
+            name = 'pure:%s.%d.%s' % (short_fn(callee), idx, s_)
+            self.ctx.declare_fun(name, [t.sort for t in flat], INT)
+            parts.append(app(name, flat, INT))
+        return SliceV(parts[0], parts[1], parts[2], parts[2], elem)
+
     def assume_pure(self, st, pre_state, callee, args, res):
         """a function marked pure (deterministic, modifies nothing): its scalar results are a function of its arguments"""
         vals = res.elems if isinstance(res, TupleV) else [res]
         for i, r in enumerate(vals):
             if isinstance(r, T):
                 self.ctx.assume(implies(st.pc, eq(r, self.pure_app(pre_state, callee, args, i, r.sort))))
+            elif isinstance(r, SliceV):
+                pv = self.pure_slice(pre_state, callee, args, i, r.elem)
+                self.ctx.assume(implies(st.pc, and_(eq(r.arr, pv.arr), eq(r.off, pv.off), eq(r.len, pv.len))))
         self.trusted.add('%s is deterministic (pure): results are a function of the argument values' % short_fn(callee))
 
     def inline_call(self, st, ins, callee, args, bindings):
@@ -1424,6 +1619,13 @@ class Verifier(Exec):
         h = self.heap_get(st, 'MAPN', ARR_II)
         n = select(h, m.term)
         self.ctx.assume(le(ZERO, n))
+        try:
+            key, u, leaves, hh = self.map_heaps(st, m)
+            k = const('k!', INT)
+            # an empty map has no keys
+            self.ctx.assume(implies(eq(n, ZERO), forall([k], not_(select(select(hh, m.term), k)), [select(select(hh, m.term), k)])))
+        except Unsupported:
+            pass
         return n
 
     def map_delete(self, st, m, k):
@@ -1555,6 +1757,11 @@ class Verifier(Exec):
             cp_new = self.obj_load(st, e, self.elemaddr(na, k))
             cp_old = self.obj_load(st, e, self.elemaddr(s.arr, add(s.off, k)))
             self.ctx.assume(forall([k], implies(and_(le(ZERO, k), lt(k, s.len)), ev.ident_eq(cp_new, cp_old)), [self.elemaddr(na, k)]))
+            # the same fact indexed (and triggered) by the old element
+            k2 = const('aq?%d' % nq, INT)
+            cp_new2 = self.obj_load(st, e, self.elemaddr(na, sub(k2, s.off)))
+            cp_old2 = self.obj_load(st, e, self.elemaddr(s.arr, k2))
+            self.ctx.assume(forall([k2], implies(and_(le(s.off, k2), lt(k2, add(s.off, s.len))), ev.ident_eq(cp_new2, cp_old2)), [self.elemaddr(s.arr, k2)]))
             val_ = self.obj_load(st, e, self.elemaddr(t.arr, t.off))
             dst = self.ctx.name('app.dst', ite(fits, self.elemaddr(s.arr, add(s.off, s.len)), self.elemaddr(na, s.len)))
             saved = self.writable, self.loop_writes
@@ -1671,7 +1878,13 @@ class Verifier(Exec):
         for cl in spec.anchored:
             if cl.anchor in text:
                 scope = self.scope_at_line(line)
-                env = self.spec_env(scope)
+                env = dict(self.spec_env(scope))
+                # inside a range loop body, `cur` is the index of the element being processed
+                for h_, lp_ in self.cfg.loops.items():
+                    if lp_.ast and lp_.ast['line'] <= line <= lp_.ast['endline'] and lp_.ast.get('scope') is scope:
+                        ri_ = self.range_index(h_)
+                        if ri_ is not None and ri_[0] in st.cells:
+                            env['cur'] = st.cells[ri_[0]]
                 self.cur_detail = 'anchor'
                 self.apply_use(cl, st, env)
 
@@ -1801,6 +2014,11 @@ class Verifier(Exec):
             h = self.heap_get(st, 'MAPN', ARR_II)
             st.heap['MAPN'] = store(h, a, ZERO)
             r = Opaque(a, ins['type'])
+            try:
+                key_, u_, leaves_, hh_ = self.map_heaps(st, r)
+                st.heap['MAPH:' + key_] = store(hh_, a, constarr(ARR_IB, FALSE))
+            except Unsupported:
+                pass
         elif op == 'MapUpdate':
             self.map_update(st, ins)
             return
@@ -1893,7 +2111,7 @@ class Verifier(Exec):
             for s in ('arr', 'off', 'len'):
                 nm = 'MAPV:%s.%s' % (key, s)
                 st.heap[nm] = store(leaves[s], m.term, store(select(leaves[s], m.term), kt, getattr(val_, s)))
-        else:
+        elif leaves:
             nm = 'MAPV:' + key
             st.heap[nm] = store(leaves[''], m.term, store(select(leaves[''], m.term), kt, self.scalar_term(val_)))
 
@@ -1970,6 +2188,9 @@ class Verifier(Exec):
         # snapshot entry state for old()
         old = st.copy()
         self.old = old
+        for rv_ in (spec.opts.get('reveal', []) if spec else []):
+            for nm_ in rv_.replace(',', ' ').split():
+                self.reveal_specfun(nm_, st)
         self.entry_nassert = len(c.asserts)
         if spec:
             self.writable = self.eval_regions(spec.modifies or [], st, eenv) + [('fresh', self.alloc0)]
